@@ -18,9 +18,16 @@ def sha(s):
     return hashlib.sha256(s).hexdigest()[:16]
 
 
+REPO_DIRS = ["r0", "r0", "r0", "r0", "r0", "r0", "my repo", "r0-\u00fcn\u00ef-\u65e5\u672c", "w\u00f6rk tree (1)", "r0"]
+NEXT_REPO_DIR = None     # set by the runner per generated run (a function of the run seed); replays read it from the trace
+
+
 class Exec:
     def __init__(self, root, trace):
         self.trace = trace
+        if "repo_dir" not in trace.setdefault("world", {}):
+            # the directory name of the repository is part of the concrete world (spaces, non-ASCII characters)
+            trace["world"]["repo_dir"] = os.environ.get("GAISIM_REPO_DIR") or NEXT_REPO_DIR or "r0"
         wcfg = dict(trace.get("world", {}))
         self.w = World(root, mode=wcfg.get("mode", "wrapper"),
                        prompt_storage=wcfg.get("prompt_storage", "default"),
@@ -48,7 +55,7 @@ class Exec:
     def init(self):
         init = self.trace.get("init", {})
         w = self.w
-        repo = w.init_repo("r0")
+        repo = w.init_repo(self.trace["world"].get("repo_dir") or "r0")
         self.repos["r0"] = repo
         for p, c in sorted(init.get("files", {}).items()):
             w.write(repo, p, c)
